@@ -35,9 +35,8 @@ def _is_wrap(model: PyModel, fi, stmt: ast.stmt) -> bool:
     return False
 
 
-def hygienic_returns(run: Run, model: PyModel, qual: str) -> bool:
+def hygienic_returns(run: Run, model: PyModel, fi) -> bool:
     """Every path returning a clause either wraps it in parentheses or excludes a '|' in it."""
-    fi = model.func(qual)
     fn = fi.node
     defs = single_bool_defs(fn)
     ok_all = True
@@ -93,10 +92,13 @@ def check(run: Run) -> None:
     run.rule("C15.R5", "every brace pair is a reference: the name pattern is '{' (any character but a brace)* '}', so no spelling of {name} slips through unexpanded and unreported")
     reference_pattern(run, model)
     run.rule("C15.R4", "freshness: the clause is read from the .zoq file on every call; no module-level cache")
-    fe, fs = model.func(F_EXPAND), model.func(F_SAVED)
+    # both functions with their private helpers folded back in (extracting `_read_saved_qstring`, `_splice_where_filters`, ... changes nothing)
+    from ..flatten import flat_info
+
+    fe, fs = flat_info(model, F_EXPAND, exclude=(F_SAVED, F_NAMES)), flat_info(model, F_SAVED, exclude=(F_NAMES,))
 
     # ---- R1: substitution sites
-    hyg = hygienic_returns(run, model, F_SAVED)
+    hyg = hygienic_returns(run, model, fs)
     sites = 0
     for fi in (fe, fs):
         se = ShapeEval(model, fi)
@@ -109,11 +111,7 @@ def check(run: Run) -> None:
                 continue
             sites += 1
             rep = c.args[1]
-            from_saved = False
-            if isinstance(rep, ast.Name):
-                for n in walk_no_nested(fi.node):
-                    if isinstance(n, ast.Assign) and any(isinstance(t, ast.Name) and t.id == rep.id for t in n.targets) and isinstance(n.value, ast.Call) and model.callee(fi, n.value) == F_SAVED:
-                        from_saved = True
+            from_saved = isinstance(rep, ast.Name) and rep.id in _flows_from(model, fi, F_SAVED)
             wrapped_here = any(len(s) >= 3 and isinstance(s[0], Const) and s[0].text.startswith("(") and isinstance(s[-1], Const) and s[-1].text.endswith(")") for s in se.eval(rep))
             if wrapped_here or (from_saved and hyg):
                 run.proved("C15.R1", f"{fi.name}: {{name}} is replaced by a hygienic clause")
@@ -186,11 +184,11 @@ def check(run: Run) -> None:
     rec = [c for c in ast.walk(fs.node) if isinstance(c, ast.Call) and model.callee(fs, c) == F_SAVED]
     in_loop = False
     for n in walk_no_nested(fs.node):
-        if isinstance(n, ast.For) and any(model.callee(fs, c) == F_NAMES for c in ast.walk(n.iter) if isinstance(c, ast.Call)) and any(r in list(ast.walk(n)) for r in rec):
+        if isinstance(n, ast.For) and _iterates_names(model, fs, n) and any(r in list(ast.walk(n)) for r in rec):
             in_loop = True
     run.check("C15.R3", "nested references are expanded recursively", bool(rec) and in_loop, "_get_saved_where_filter", "recursion over names in the clause",
               "_get_saved_where_filter does not expand the {names} found in the clause it returns", file=FILE, node=fs.node)
-    loops = [n for n in walk_no_nested(fe.node) if isinstance(n, ast.For) and any(model.callee(fe, c) == F_NAMES for c in ast.walk(n.iter) if isinstance(c, ast.Call))]
+    loops = [n for n in walk_no_nested(fe.node) if isinstance(n, ast.For) and _iterates_names(model, fe, n) and any(isinstance(c, ast.Call) and model.callee(fe, c) == F_SAVED for c in ast.walk(n))]
     run.check("C15.R3", "every reference of the query is expanded", len(loops) == 1, "expand_saved_queries", "loop over names", "expand_saved_queries does not visit every {name}", file=FILE, node=fe.node)
 
     # ---- R4
@@ -296,3 +294,53 @@ def reference_pattern(run: Run, model: PyModel) -> None:
             else:
                 msg = f"the reference pattern {pat!r} is not of the form '{{' (any non-brace)* '}}'"
             run.check("C15.R5", f"reference pattern {pat!r} recognises every brace pair", ok, "_get_saved_query_names", pat, msg, file=FILE, node=c)
+
+
+def _iterates_names(model: PyModel, fi, loop: ast.For) -> bool:
+    """The loop runs over the reference names of a query text: `for n in _get_saved_query_names(q)` or over a variable bound to that."""
+    def is_names(e: ast.expr) -> bool:
+        return any(isinstance(c, ast.Call) and model.callee(fi, c) == F_NAMES for c in ast.walk(e))
+
+    if is_names(loop.iter):
+        return True
+    names = {n.id for n in ast.walk(loop.iter) if isinstance(n, ast.Name)}
+    for n in walk_no_nested(fi.node):
+        if isinstance(n, (ast.Assign, ast.AnnAssign)) and n.value is not None and is_names(n.value):
+            tg = n.targets if isinstance(n, ast.Assign) else [n.target]
+            if any(isinstance(t, ast.Name) and t.id in names for t in tg):
+                return True
+    return False
+
+
+def _flows_from(model: PyModel, fi, source: str) -> set[str]:
+    """Names that can only hold values produced by calls to `source` (through copies, dict stores and dict iteration)."""
+    tainted: set[str] = set()
+    containers: set[str] = set()
+    for _ in range(6):
+        before = (len(tainted), len(containers))
+        for n in walk_no_nested(fi.node):
+            if isinstance(n, (ast.Assign, ast.AnnAssign)) and n.value is not None:
+                tg = n.targets if isinstance(n, ast.Assign) else [n.target]
+                v = n.value
+                from_src = (isinstance(v, ast.Call) and model.callee(fi, v) == source) or (isinstance(v, ast.Name) and v.id in tainted)
+                for t in tg:
+                    if isinstance(t, ast.Name) and from_src:
+                        tainted.add(t.id)
+                    if isinstance(t, ast.Subscript) and isinstance(t.value, ast.Name) and from_src:
+                        containers.add(t.value.id)
+                    if isinstance(t, ast.Name) and isinstance(v, ast.Name) and v.id in containers:
+                        containers.add(t.id)
+                    if isinstance(t, ast.Name) and isinstance(v, ast.DictComp) and ((isinstance(v.value, ast.Call) and model.callee(fi, v.value) == source) or (isinstance(v.value, ast.Name) and v.value.id in tainted)):
+                        containers.add(t.id)
+            if isinstance(n, ast.NamedExpr) and isinstance(n.value, ast.Call) and model.callee(fi, n.value) == source:
+                tainted.add(n.target.id)
+            if isinstance(n, (ast.For, ast.comprehension)):
+                it = n.iter
+                if isinstance(it, ast.Call) and isinstance(it.func, ast.Attribute) and isinstance(it.func.value, ast.Name) and it.func.value.id in containers:
+                    if it.func.attr == "items" and isinstance(n.target, ast.Tuple) and len(n.target.elts) == 2 and isinstance(n.target.elts[1], ast.Name):
+                        tainted.add(n.target.elts[1].id)
+                    if it.func.attr == "values" and isinstance(n.target, ast.Name):
+                        tainted.add(n.target.id)
+        if (len(tainted), len(containers)) == before:
+            break
+    return tainted
